@@ -1666,6 +1666,7 @@ class Alias(ObjectAliasMixin):
     def target(self, value: Object | Alias) -> None:
         if value is self or value.path == self.path:
             raise CyclicAliasError([self.target_path])
+        self._forget_target()
         self._target = value
         self.target_path = value.path
         if self.parent is not None:
@@ -1745,6 +1746,15 @@ class Alias(ObjectAliasMixin):
         self._target = resolved
         if self.parent is not None:
             self._target.aliases[self.path] = self  # type: ignore[union-attr]
+
+    def _forget_target(self) -> None:
+        # The previous target must not list this alias anymore:
+        # it would re-target it (again) when replaced by another object.
+        if self._target is not None:
+            with suppress(AttributeError, AliasResolutionError, CyclicAliasError):
+                aliases = self._target.aliases
+                for path in [path for path, alias in aliases.items() if alias is self]:
+                    del aliases[path]
 
     def _update_target_aliases(self) -> None:
         with suppress(AttributeError, AliasResolutionError, CyclicAliasError):
